@@ -544,6 +544,12 @@ func (x *TopicsIndex) scanMessages(filter string, d int, n *particle, pks []pack
 	}
 
 	key, hasNext := isolateParticle(filter, d)
+	if key == "#" && d > 0 && d == strings.Count(filter, "/") && n.retainPath != "" {
+		if pk, ok := x.Retained.Get(n.retainPath); ok { // a trailing # also matches the parent level [MQTT-4.7.1-2]
+			pks = append(pks, pk)
+		}
+	}
+
 	if key == "+" || key == "#" || d == -1 {
 		for _, adjacent := range n.particles.getAll() {
 			if d == 0 && strings.HasPrefix(adjacent.key, "$") {
